@@ -1,0 +1,42 @@
+//go:build verif && unix
+
+package vgirpc
+
+// Verification hooks for the shared-memory allocator (build tag `verif`).
+// Read-only views / thin exports of unexported allocator entry points; each
+// takes seg.mu exactly as the public paths (AllocateAndWrite, FreeOffset) do.
+// No behaviour change; not compiled without the tag.
+
+// VerifShmAllocate first-fits n bytes in seg's data area through the real
+// allocator (allocateLocked) under seg.mu, mirroring the lock/closed protocol
+// of AllocateAndWrite. Returns (absolute offset, true) or (0, false).
+func VerifShmAllocate(seg *ShmSegment, n int) (uint64, bool) {
+	if seg.closed.Load() {
+		return 0, false
+	}
+	seg.mu.Lock()
+	defer seg.mu.Unlock()
+	if seg.closed.Load() {
+		return 0, false
+	}
+	return seg.allocateLocked(n)
+}
+
+// VerifShmFree releases the allocation starting at off (same as FreeOffset).
+func VerifShmFree(seg *ShmSegment, off uint64) error {
+	return seg.FreeOffset(off)
+}
+
+// VerifShmAllocs returns a copy of the allocation table as seen through the
+// segment's own mapping, read under seg.mu.
+func VerifShmAllocs(seg *ShmSegment) [][2]uint64 {
+	if seg.closed.Load() {
+		return nil
+	}
+	seg.mu.Lock()
+	defer seg.mu.Unlock()
+	if seg.closed.Load() {
+		return nil
+	}
+	return seg.readAllocs()
+}
